@@ -291,7 +291,7 @@ MUTANTS = [
     dict(kind="break", name="prune-marginalises-model-cpd-in-place", file=IB, expect="C16.pure",
          old="                cpds.append(cpd.marginalize(scope_diff, inplace=False))", new="                cpd.marginalize(scope_diff)\n                cpds.append(cpd)"),
     dict(kind="break", name="bp-query-restore-not-in-finally", file=EI, expect="C16.engine",
-         old="        finally:\n            self.__init__(orig_model)\n\n        if joint:\n            return result.normalize(inplace=False)",
+         old="        finally:\n            # Rebind the engine to the original model even if the query fails.\n            self.__init__(orig_model)\n\n        if joint:\n            return result.normalize(inplace=False)",
          new="        except KeyError:\n            raise\n        self.__init__(orig_model)\n\n        if joint:\n            return result.normalize(inplace=False)"),
     dict(kind="break", name="ve-virtual-evidence-not-restored", file=EI, expect="C16.engine",
          old="                    elimination_order=elimination_order,\n                    joint=joint,\n                    show_progress=show_progress,\n                )\n            finally:\n                # Rebind the engine to the original model (without the virtual evidence nodes).\n                self.__init__(orig_model)",
